@@ -46,6 +46,7 @@ type vlpDgramRec struct {
 	Fate      string // "deliver", "drop", "dup", "reorder", "filter-drop"
 	Delivered bool
 	First     byte
+	From, To  netip.AddrPort // sender's local address and the destination it wrote to (added for C27; To may be unrouted)
 }
 
 type vlpNet struct {
@@ -62,6 +63,9 @@ type vlpNet struct {
 	OnSend func(rec vlpDgramRec, b []byte)
 	// OnDeliver is called (under mu) when a datagram is handed to the receiving endpoint.
 	OnDeliver func(dir int, b []byte)
+	// OnDeliverRec, if set, is called like OnDeliver (under mu, once per delivered copy) with
+	// the datagram's send record, which carries the addresses.
+	OnDeliverRec func(rec vlpDgramRec, b []byte)
 
 	stop   chan struct{} // closed by vlpClose: pending deliveries are abandoned
 	stopMu sync.Once
@@ -144,7 +148,7 @@ func (pc *vlpPC) Write(d datagram) error {
 	n.seq[dir]++
 	n.Sent[dir]++
 	n.Bytes[dir] += int64(len(b))
-	rec := vlpDgramRec{Dir: dir, Seq: seq, Size: len(b), Fate: "deliver", Delivered: true}
+	rec := vlpDgramRec{Dir: dir, Seq: seq, Size: len(b), Fate: "deliver", Delivered: true, From: pc.addr, To: d.peerAddr}
 	if len(b) > 0 {
 		rec.First = b[0]
 	}
@@ -209,6 +213,9 @@ func (pc *vlpPC) Write(d datagram) error {
 			n.DeliveredBytes[dir] += int64(len(b))
 			if n.OnDeliver != nil {
 				n.OnDeliver(dir, b)
+			}
+			if n.OnDeliverRec != nil {
+				n.OnDeliverRec(rec, b)
 			}
 			n.mu.Unlock()
 			select {
@@ -388,7 +395,7 @@ func vlpConvFrame(v any) vlpFrame {
 	case debugFrameMaxStreams:
 		return vlpFrame{Kind: "max_streams", StreamType: f.streamType, Max: f.max}
 	case debugFrameCrypto:
-		return vlpFrame{Kind: "crypto", Off: f.off, Len: int64(len(f.data))}
+		return vlpFrame{Kind: "crypto", Off: f.off, Len: int64(len(f.data)), Data: f.data} // Data: as for stream, valid only during the callback
 	case debugFramePing:
 		return vlpFrame{Kind: "ping"}
 	case debugFramePadding:
